@@ -49,12 +49,27 @@ func VerifH_C14_Stat() {
 		rt = internal.NewResourceType(internal.CollectionName)
 	}
 	mod := time.Date(2021, 2, 3, 4, 5, 6, 0, time.UTC)
+	// at most two properties are disturbed (absent, or reported under a
+	// non-200 status); the others are present under 200
+	d1 := vrt.Choose("disturbed-property", 6) // 5 = none
+	d2 := vrt.Choose("second-disturbed-property", 6)
+	mk := func(i int, tag string, val interface{}) propSpec {
+		sp := propSpec{present: true, code: 200, val: val}
+		if i == d1 || i == d2 {
+			if i != 0 && vrt.Choose(tag+"-absent", 2) == 1 {
+				sp.present = false
+			} else {
+				sp.code = symPropCode(tag)
+			}
+		}
+		return sp
+	}
 	specs := []propSpec{
-		{true, symPropCode("resourcetype"), rt},
-		{vrt.Bool("has-length"), symPropCode("length"), &internal.GetContentLength{Length: 42}},
-		{vrt.Bool("has-type"), symPropCode("type"), &internal.GetContentType{Type: "text/x"}},
-		{vrt.Bool("has-etag"), symPropCode("etag"), &internal.GetETag{ETag: "tag"}},
-		{vrt.Bool("has-modified"), symPropCode("modified"), &internal.GetLastModified{LastModified: internal.Time(mod)}},
+		mk(0, "resourcetype", rt),
+		mk(1, "length", &internal.GetContentLength{Length: 42}),
+		mk(2, "type", &internal.GetContentType{Type: "text/x"}),
+		mk(3, "etag", &internal.GetETag{ETag: "tag"}),
+		mk(4, "modified", &internal.GetLastModified{LastModified: internal.Time(mod)}),
 	}
 	resp := internal.Response{Hrefs: []internal.Href{{Path: "/dav/f"}}}
 	for _, sp := range specs {
